@@ -21,6 +21,25 @@ class _Opaque(object):
     """placeholder for a value we refuse to fold (kept out of results)"""
 
 
+class OpaqueValue(object):
+    """an unfoldable dict value: equal only to an opaque value with the same source text"""
+
+    def __init__(self, text):
+        self.text = text
+
+    def __eq__(self, other):
+        return isinstance(other, OpaqueValue) and other.text == self.text
+
+    def __ne__(self, other):
+        return not self == other
+
+    def __hash__(self):
+        return hash(self.text)
+
+    def __repr__(self):
+        return "<unfolded {}>".format(self.text[:40])
+
+
 _STR_METHODS = frozenset(
     (
         "join format replace partition rpartition split rsplit startswith endswith title lower "
@@ -90,7 +109,11 @@ def fold(node, env=None, resolver=None):
                 if k is None:
                     d.update(f(v))
                 else:
-                    d[f(k)] = f(v)
+                    try:
+                        d[f(k)] = f(v)
+                    except Unknown:
+                        # keep the key; the value is an opaque token compared by source text
+                        d[f(k)] = OpaqueValue(" ".join(ast.unparse(v).split()))
             return d
         if isinstance(n, ast.JoinedStr):
             out = []
